@@ -65,7 +65,8 @@ type BackendCall struct {
 	RootHash  []byte
 	RootNanos uint64
 	// backend state facts the oracles need
-	Dup bool // QueueLeaf: the identity hash was already present
+	Dup  bool // QueueLeaf: the identity hash was already present
+	Step int  // driver step during which the call was answered
 }
 
 // Op is one client operation against a front end.
@@ -91,17 +92,18 @@ type Op struct {
 	Statuses  []int
 	StoreOps  []string
 
-	Done     bool
-	Checked  bool
-	Status   int
-	RespBody []byte
-	Header   http.Header
-	Panic    string
-	StartT   time.Duration
-	EndT     time.Duration
-	StartSeq int
-	EndSeq   int
-	timedEnd bool
+	Done      bool
+	Checked   bool
+	Status    int
+	RespBody  []byte
+	Header    http.Header
+	Panic     string
+	StartT    time.Duration
+	EndT      time.Duration
+	StartSeq  int
+	StartStep int // driver step at which the request was started
+	EndSeq    int
+	timedEnd  bool
 
 	// get-* parameters for the oracles
 	A, B int64
@@ -153,6 +155,7 @@ type Backend struct {
 	Log                        *reflog.Log
 	Name                       string
 	Creator                    map[string]*Submission // identity hash -> the submission whose QueueLeaf stored the leaf
+	AllCalls                   []*BackendCall         // every call answered so far, whoever made it
 }
 
 func (b *Backend) nowNanos() int64 { return time.Now().UnixNano() }
@@ -169,6 +172,10 @@ func (b *Backend) call(ctx context.Context, rpc string, req proto.Message, hones
 	d, err := b.S.Seam(ctx, party, b.Name+"."+rpc, "", req)
 	c := &BackendCall{RPC: rpc, Req: proto.Clone(req), Decision: d}
 	record := func() {
+		c.Step = b.S.Step()
+		b.mu.Lock()
+		b.AllCalls = append(b.AllCalls, c)
+		b.mu.Unlock()
 		if op != nil {
 			op.mu.Lock()
 			op.Calls = append(op.Calls, c)
